@@ -301,6 +301,24 @@ fn main() {
     for t in gen::strings(&['ラ', '－', '―', '～', 'あ', '｡', 'ｶ', '–'], 1, tier.pick(3, 4)) {
         texts.push(gen::s(&t));
     }
+    // third alphabet: the first and the last scalar value of EVERY UTF-8 lead byte (0xC2..=0xF4), so that every
+    // byte-length class and every lead-byte pattern takes part in the character-position -> byte-offset mapping
+    // (thorough: every scalar value, in one context)
+    {
+        let mut by_lead: std::collections::BTreeMap<u8, (char, char)> = std::collections::BTreeMap::new();
+        for c in (0x80u32..=0x10FFFF).filter_map(char::from_u32) {
+            let mut buf = [0u8; 4];
+            let lead = c.encode_utf8(&mut buf).as_bytes()[0];
+            by_lead.entry(lead).and_modify(|e| e.1 = c).or_insert((c, c));
+        }
+        for (_, (first, last)) in by_lead {
+            for c in [first, last] {
+                for t in [vec![c], vec!['a', c], vec![c, 'a'], vec![c, c, 'あ'], vec!['𠀋', c, '1', c]] {
+                    texts.push(gen::s(&t));
+                }
+            }
+        }
+    }
     let wss: Vec<String> = gen::strings(&['D', 'R', 'H', 'T', 'K', 'O', 'G'], 0, tier.pick(2, 3)).iter().map(|t| gen::s(t)).collect();
     chk.set("stream_texts", json!(texts.len()));
     chk.set("wsconst_strings", json!(wss.len()));
@@ -362,6 +380,26 @@ fn main() {
             }
         }
     });
+    // thorough: every Unicode scalar value between two ordinary characters, one generated model, two wsconst strings
+    if tier == Tier::Thorough {
+        let (name, bytes) = ms.iter().find(|m| m.0 == "generated-plain").unwrap_or(&ms[0]);
+        for ws in ["", "G"] {
+            let mk = || Model::read_slice(bytes).unwrap_or_else(|e| machinery_error(&format!("{name}: {e}"))).0;
+            let tk0 = VaporettoTokenizer::new(mk(), ws).unwrap_or_else(|e| machinery_error(&e.to_string()));
+            let pred = Predictor::new(mk(), false).unwrap_or_else(|e| machinery_error(&e.to_string()));
+            let filters = filters_for(ws);
+            (1u32..=0x10FFFF).into_par_iter().for_each(|u| {
+                let Some(c) = char::from_u32(u) else { return };
+                let text = gen::s(&['a', c, 'あ']);
+                chk.eval(1);
+                chk.nontrivial(1);
+                let mut tk = tk0.clone();
+                if let Some((k, what)) = check_stream(&mut tk, &pred, &filters, &text) {
+                    chk.violation(format!("{k} model={name} wsconst={ws:?} text={text:?}"), what, json!({"kind": "stream", "name": name, "model": bytes, "wsconst": ws, "text": text}));
+                }
+            });
+        }
+    }
     // histories on ONE tokenizer: every ordered pair of texts over half-width / full-width spellings of the
     // same characters (equal after normalisation, different byte lengths), the second text checked in full
     // right after the first was streamed (a tokenizer is documented to be reusable)
